@@ -51,6 +51,28 @@ def strip_generics(path):
     return ''.join(out)
 
 
+# functions that were renamed since the rules were written: {current normalised path: the path the rules know} (see FactBase._aliases)
+ALIASES = {}
+
+
+def _alias(path):
+    if not ALIASES or path is None:
+        return path
+    if path in ALIASES:
+        return ALIASES[path]
+    for new, old in ALIASES.items():
+        if path.startswith(new + '::'):
+            return old + path[len(new):]
+    return path
+
+
+def fingerprint_of(b):
+    """what identifies a function besides its name"""
+    calls = sorted({'::'.join(strip_generics(t['f']).split('::')[-2:]) for _, t in b.calls() if t.get('f')})
+    return {'dk': b.raw.get('dk'), 'impl_self': b.raw.get('impl_self'), 'impl_trait': b.raw.get('impl_trait'), 'parent': b.nid.rsplit('::', 1)[0],
+            'file': b.file, 'argc': b.raw['argc'], 'sig': b.locals[:b.raw['argc'] + 1], 'calls': calls}
+
+
 class Body:
     __slots__ = ('raw', 'crate', 'id', 'nid', 'root', 'nroot', 'blocks', '_succ', '_pred', '_reach_cache', 'fb')
 
@@ -59,9 +81,9 @@ class Body:
         self.crate = crate
         self.fb = fb
         self.id = raw['id']
-        self.nid = strip_generics(self.id)
+        self.nid = _alias(strip_generics(self.id))
         self.root = raw['root']
-        self.nroot = strip_generics(self.root)
+        self.nroot = _alias(strip_generics(self.root))
         self.blocks = raw['blocks']
         self._succ = None
         self._pred = None
@@ -210,13 +232,13 @@ def callee(t):
     f = t.get('f')
     if f is None:
         return None
-    return strip_generics(f)
+    return _alias(strip_generics(f)) if ALIASES else strip_generics(f)
 
 
 def callee_resolved(t):
     r = t.get('res')
     if r:
-        return strip_generics(r)
+        return _alias(strip_generics(r)) if ALIASES else strip_generics(r)
     return callee(t)
 
 
@@ -247,8 +269,16 @@ def op_local(op):
 
 
 class FactBase:
-    def __init__(self, facts_dir):
+    def __init__(self, facts_dir, use_fingerprints=True):
         self.dir = facts_dir
+        self.renamed = {}
+        self._fp = None
+        if use_fingerprints:
+            fp = os.path.join(os.path.dirname(os.path.dirname(os.path.abspath(__file__))), 'fingerprints.json')
+            if os.path.exists(fp):
+                with open(fp) as fh:
+                    self._fp = json.load(fh)
+        ALIASES.clear()
         self.crates = {}  # key -> raw crate dict
         self._files = defaultdict(list)
         for f in glob.glob(os.path.join(facts_dir, '*.json')):
@@ -276,6 +306,7 @@ class FactBase:
             with open(f) as fh:
                 raw = json.load(fh)
             self.crates[key] = raw
+            self._aliases(name, ctype, raw)
             bodies = [Body(b, name, self) for b in raw['bodies']]
             self._bodies[key] = bodies
             by_nid = defaultdict(list)
@@ -286,6 +317,53 @@ class FactBase:
             self._by_nid[key] = by_nid
             self._by_root[key] = by_root
         return self.crates[key]
+
+    def _aliases(self, name, ctype, raw):
+        """A function the rules know by name that is gone, and a new function with the same kind, owner, signature and (mostly) the same
+        callees: it was renamed. The rules keep addressing it by the old name; the report says so."""
+        tab = (self._fp or {}).get('%s/%s' % (name, ctype))
+        if not tab:
+            return
+        cur = {}
+        for rb in raw['bodies']:
+            if rb.get('promoted') or rb['id'] != rb['root'] or rb.get('dk') not in ('Fn', 'AssocFn') or rb.get('exp'):
+                continue
+            cur[strip_generics(rb['id'])] = rb
+        missing = [n for n in tab if n not in cur]
+        added = [n for n in cur if n not in tab]
+        if not missing or not added:
+            return
+        def fp_raw(rb):
+            calls = set()
+            for blk in rb['blocks']:
+                t = blk['term']
+                if t and t['k'] in ('call', 'tailcall') and t.get('f'):
+                    calls.add('::'.join(strip_generics(t['f']).split('::')[-2:]))
+            return {'dk': rb.get('dk'), 'impl_self': rb.get('impl_self'), 'impl_trait': rb.get('impl_trait'), 'argc': rb['argc'],
+                    'sig': rb['locals'][:rb['argc'] + 1], 'calls': calls, 'file': rb['file']}
+        used = set()
+        for old in sorted(missing):
+            f0 = tab[old]
+            best, score = None, 0.0
+            for new in added:
+                if new in used:
+                    continue
+                f1 = fp_raw(cur[new])
+                if (f1['dk'], f1['impl_self'], f1['impl_trait'], f1['argc']) != (f0['dk'], f0['impl_self'], f0['impl_trait'], f0['argc']):
+                    continue
+                same_parent = new.rsplit('::', 1)[0] == f0['parent']
+                if not same_parent and not (f0['impl_self'] and f1['file'] == f0['file']):
+                    continue
+                if [x.replace(new, old) for x in f1['sig']] != f0['sig'] and f1['sig'] != f0['sig']:
+                    continue
+                a, b = set(f0['calls']), f1['calls']
+                j = len(a & b) / len(a | b) if (a | b) else 1.0
+                if j > score:
+                    best, score = new, j
+            if best is not None and score >= 0.6:
+                used.add(best)
+                ALIASES[best] = old
+                self.renamed[old] = best
 
     def bodies(self, name, ctype='Rlib'):
         self.crate(name, ctype)
@@ -323,6 +401,6 @@ class FactBase:
 
     def fn_sig(self, name, nid, ctype='Rlib'):
         for f in self.fns(name, ctype):
-            if strip_generics(f['id']) == nid:
+            if _alias(strip_generics(f['id'])) == nid:
                 return f
         return None
